@@ -231,7 +231,10 @@ def is_kw(tok):
 # ----------------------------------------------------------------------------------
 
 VAR_NAMES = ["a", "b", "x", "y", "zz", "Idx", "jj", "k2", "val_1", "tmp", "Rho", "u_v", "w9",
-             "alpha", "betaX", "n", "m", "q", "p_s", "hh"]
+             "alpha", "betaX", "n", "m", "q", "p_s", "hh",
+             # names that begin with a keyword (lexical ambiguity with keyword-first matching)
+             "concurrent_idx", "if_flag", "real_part", "type_id", "data_v", "end_val", "do_count", "call_cnt"]
+LOOP_VARS = ["i", "j", "k", "concurrent_idx", "do_count", "while_c"]
 ARR_NAMES = ["arr", "vec", "mat", "Fld", "buf2", "grid", "tab_x"]
 FUN_NAMES = ["foo", "bar", "f_1", "Gfun", "hfun", "my_func"]
 SUB_NAMES = ["sub1", "do_it", "S_two", "worker", "init_x", "step"]
@@ -710,7 +713,7 @@ class G:
     def loop_control(self):
         r = self.rng.random()
         if r < 0.7:
-            t = [self.ch(["i", "j", "k"]), "="] + self.int_expr(1) + [","] + self.int_expr(1)
+            t = [self.ch(LOOP_VARS if self.p(0.2) else ["i", "j", "k"]), "="] + self.int_expr(1) + [","] + self.int_expr(1)
             if self.p(0.25):
                 t += [","] + self.int_expr(2)
             return t
